@@ -355,6 +355,11 @@ Theorem C15_registers_kept_until_next_match :
   forall n body st, forallb (fun x => negb (sets_registers x)) body = true -> snd (run_block n body st) = st.
 Proof. exact registers_kept_until_next_match. Qed.
 Print Assumptions C15_registers_kept_until_next_match.
+Theorem C15_sub_replacement_ignores_registers :
+  forall n glob subj ci r rep st,
+  run_stmt n (SSub glob subj ci r rep) st = ([(if glob then gsub else sub) ci r (eval_lit subj st) (unbackslash rep)], st).
+Proof. exact sub_replacement_ignores_registers. Qed.
+Print Assumptions C15_sub_replacement_ignores_registers.
 Theorem C15_literal_untouched_while_unset : forall lit, eval_lit lit None = unbackslash lit.
 Proof. exact eval_lit_unset. Qed.
 Print Assumptions C15_literal_untouched_while_unset.
@@ -385,7 +390,7 @@ Example C15_nonvacuous_regex :
   /\ gsub false (Cat a a) (B "a") (B "X") = B "a"
   /\ fst (run_block 3 [SPrint (B "\1:\2"); SMatch false (B "abc") false (Cat (Grp 1%N a) (Grp 2%N b)); SPrint (B "\1:\2\101");
                        SFrame [SPrint (B "in\1")]; SSub false (B "ab") false (Grp 1%N b) (B "[\1]"); SMatch false (B "q") false a; SPrint (B "<\1>")] None)
-     = [B "\1:\2"; B "true"; B "a:bA"; B "in\1"; B "a[a]"; B "false"; B "<>"]
+     = [B "\1:\2"; B "true"; B "a:bA"; B "in\1"; B "a[b]"; B "false"; B "<>"]
   /\ compile_miller (B """a.*b""i") = (true, B "a.*b").
 Proof.
   cbv zeta. repeat split; try (vm_compute; reflexivity).
